@@ -665,3 +665,17 @@ def _getitem_hook(eng, st, obj, idx, node, site):
 		a, b = norm(lo, z3.IntVal(0)), norm(hi, L)
 		return iter([(st, SStr(z3.SubString(obj.term, a, z3.If(b - a < 0, 0, b - a))))])
 	return None
+
+
+_olen = {}
+
+
+@lib('method:__len__')
+def _opaque_len(eng, st, obj, args, kwargs, node, site):
+	"""len() of an opaque collection value: an uninterpreted non-negative function of the value"""
+	if isinstance(obj, SObj):
+		f = _olen.setdefault(obj.T.name, z3.Function(f'len_{obj.T.name}', obj.T.sort, I))
+		st.assume(f(obj.term) >= 0)
+		yield st, SInt(f(obj.term))
+		return
+	raise Unsupported(f'len of {obj!r}')
